@@ -25,7 +25,16 @@ def derive_cm_table(ctx, chk, sc, ec, cls=SCORES, rule="R01.1"):
             chk.violation(rule, CMQ, "%s/%s:raises" % (sc, ec), "%s when %s" % (show(o.value), pc_text(o)),
                           "cm() returns a matrix for every threshold", ctx.where(CMQ))
         else:
-            chk.unknown(rule, "cm() may raise %s under a condition outside the model: %s" % (show(o.value, 80), pc_text(o)[:200]))
+            # a refusal that depends on the VALUE of the threshold: the quantifier covers every real threshold and +-inf (NaN is outside it)
+            conds = [c for c, _t in o.pc]
+            fns = {a.fn for c in conds for a in [c] + list(atoms_of(c)) if isinstance(a, App) and any(x == T for x in atoms_of(a))}
+            if fns & {"isfinite", "isinf", "lt0", "le0", "eq0", "ne0", "eq", "isclose"}:
+                chk.violation(rule, CMQ, "%s/%s:raises" % (sc, ec), "%s when %s" % (show(o.value, 80), pc_text(o)[:160]),
+                              "cm() returns a matrix for every threshold in the quantifier (any real value, +inf and -inf included)", ctx.where(CMQ))
+            elif fns and fns <= {"isnan", "any", "all", "not", "m:any", "m:all"}:
+                chk.hold(rule, "%s/%s:nan-refusal" % (sc, ec), "cm() refuses NaN thresholds only (outside the quantifier)", nontrivial=False)
+            else:
+                chk.unknown(rule, "cm() may raise %s under a condition outside the model: %s" % (show(o.value, 80), pc_text(o)[:200]))
     if len(rets) != 1:
         if rets:
             chk.unknown(rule, "cm() has %d return paths for %s/%s: %s" % (len(rets), sc, ec, [pc_text(o) for o in rets]))
@@ -124,6 +133,7 @@ def run(ctx, chk, tier):
             else:
                 chk.violation("R01.1", CMQ, inst, show(tab[name]), show(oracle[name]) + "   (README rule: accept iff score %s threshold)" % ACCEPT[(sc, ec)],
                               ctx.where(CMQ))
+        buffer_width(ctx, chk, tab, sc, ec)
         for a, b, tot, lab in (("tp", "fn", add(App("len", (POS,)), EP), "TP+FN"), ("fp", "tn", add(App("len", (NEG,)), EN), "FP+TN")):
             s = add(tab[a], tab[b])
             if not (understood(tab[a]) and understood(tab[b])):
@@ -275,6 +285,27 @@ def constructor_sorted(ctx, chk):
                               "no sign-sensitive arithmetic on scores in the caller's dtype: for unsigned-integer scores a difference wraps around "
                               "(an unsorted array passes `diff >= 0`)", "%s line %s" % (ctx.where(init), getattr(e.get("node"), "lineno", "?")))
             for o in rets:
+                # derived copies of the scores kept next to pos / neg (float copies, pooled arrays, ...) are read by the same binary
+                # searches: whatever holds for pos / neg must hold for them (a copy taken BEFORE a subclass constructor sorts is stale)
+                from ..evalr import storage_root as _sr
+                for attr, v in sorted(o.value.attrs.items()):
+                    if attr in ("pos", "neg") or not isinstance(v, (App, Sym)):
+                        continue
+                    root = value_root(v)
+                    if root not in (P, N):
+                        continue
+                    main = o.value.attrs.get("pos" if root == P else "neg")
+                    inst = "%s:%s:is_sorted=%s" % (init.split(".")[-2], attr, "False" if flag is not None else "default")
+                    st = sortedness(v)
+                    if st != "sorted" and pc_implies_sorted(o.pc, v):
+                        st = "sorted"
+                    if st == "sorted":
+                        chk.hold("R01.4", inst, "derived score array self.%s = %s is ascending" % (attr, show(v, 120)))
+                    elif st == "unknown":
+                        chk.unknown("R01.4", "cannot decide order of derived self.%s = %s in %s" % (attr, show(v, 160), init))
+                    else:
+                        chk.violation("R01.4", init, inst, "derived score array self.%s = %s (while self.%s = %s)" % (attr, show(v, 120), "pos" if root == P else "neg", show(main, 100)),
+                                      "every per-object copy of the scores is ascending like pos / neg themselves (it is searched the same way)", ctx.where(init))
                 for attr in ("pos", "neg"):
                     v = o.value.attrs.get(attr)
                     inst = "%s:%s:is_sorted=%s" % (init.split(".")[-2], attr, "False" if flag is not None else "default")
@@ -418,6 +449,17 @@ def rates_from_cm(ctx, chk, metrics=("tpr", "fnr", "tnr", "fpr", "topr", "tonr")
                               ctx.where(q))
 
 
+def buffer_width(ctx, chk, tab, sc, ec, rule="R01.1"):
+    """The buffer that receives the counts: easy counts are declared, not materialised, and may exceed 2**31 (billions of impostor pairs)."""
+    buf = tab.get("_matrix")
+    while isinstance(buf, App) and buf.fn == "store":
+        buf = buf.args[0]
+    if isinstance(buf, App) and buf.fn in ("empty", "zeros", "ones", "full") and buf.kwd("dtype") == Const("narrowint"):
+        chk.violation(rule, CMQ, "%s/%s:buffer-width" % (sc, ec), "the counts are stored into %s" % show(buf, 100),
+                      "a 64-bit integer (or float) buffer: a cell is a count of scored samples plus a declared easy count and wraps around in a narrower integer",
+                      ctx.where(CMQ))
+
+
 def cm_cells_rule(ctx, chk, rule="R01.1"):
     """Prerequisite form of R01.1 for properties that rest on cm(): the four cells are the decision-rule counts in every configuration."""
     from ..spec import cm_oracle, GAMMAS
@@ -426,6 +468,7 @@ def cm_cells_rule(ctx, chk, rule="R01.1"):
         if tab is None:
             continue
         orc = cm_oracle(sc, ec)
+        buffer_width(ctx, chk, tab, sc, ec, rule)
         for name in ("tp", "fn", "fp", "tn"):
             inst = "%s/%s:%s" % (sc, ec, name)
             if same(tab[name], orc[name]):
